@@ -344,6 +344,12 @@ fn escape_soup(ctx: &mut Ctx, n: usize) {
 }
 
 fn run(ctx: &mut Ctx) {
+    if ctx.shard == 3 {
+        // \u{…} beyond 10FFFF whose low bits are a valid scalar value: a parse error, like every other out-of-range escape
+        for t in ["\"\\u{100000041}\"", "\"\\u{f0000006B}\"", "\"\\u{ABCDEF010001F600}\"", "\"\\u{10000000000000041}\"", "\"\\u{1000041}\"", "\"\\u{200041}\""] {
+            judge(ctx, t, "named-must-reject", Want::MustReject);
+        }
+    }
     named(ctx);
     escape_soup(ctx, ctx.tier.of(6_000, 120_000));
     magnitudes(ctx);
